@@ -314,6 +314,17 @@ class DegreeInterp:
             if m in ("dot",):
                 if base.kind == "deg" and args and args[0].kind == "deg":
                     return self._note(e, deg(base.k + args[0].k))
+        if name in ("numpy.allclose", "numpy.isclose") and len(args) >= 2:
+            # |a - b| <= atol + rtol*|b| with a non-zero default atol: an absolute tolerance against a scaled quantity
+            atol = next((k.value for k in e.keywords if k.arg == "atol"), e.args[3] if len(e.args) > 3 else None)
+            atol_zero = isinstance(atol, ast.Constant) and atol.value in (0, 0.0)
+            ds = [a for a in args[:2] if a.kind == "deg"]
+            if len(ds) == 2 and ds[0].k != ds[1].k:
+                return self._conflict(f"closeness test between values of degree {ds[0].k} and {ds[1].k}", e)
+            if ds and any(a.k != 0 for a in ds) and not atol_zero:
+                return self._conflict(f"{name.split('.')[-1]} with an absolute tolerance (atol default 1e-8) applied to a quantity of degree {ds[0].k}: the outcome changes when "
+                                      f"the values are rescaled", e)
+            return INV
         if name == "numpy.full_like" and len(e.args) >= 2 and args:
             fill = e.args[1]
             ftxt = norm_text(fill).lstrip("-")
